@@ -38,8 +38,16 @@ def select (j : Json) : R Json := do
     pure (obj [("uses", if c.files.isEmpty then jstr "<any>" else jbool c.usesMagefilesDir),
                ("files", Json.arr ((MageModel.Parse.sortBy id c.files).map jstr).toArray)])
 
+/-- the platform `-compile` builds for -/
+def plat (j : Json) : R Json := do
+  let hj ← fld j "host"
+  let host : Plat := { os := ← fldStr hj "os", arch := ← fldStr hj "arch", cgo := ← fldBool hj "cgo", releaseMinor := ← fldNat hj "minor" }
+  let p := platOf host (← fldStr j "goos") (← fldStr j "goarch")
+  pure (obj [("os", jstr p.os), ("arch", jstr p.arch)])
+
 def handle (op : String) (j : Json) : R Json :=
   match op with
   | "c10.select" => select j
+  | "c10.plat" => plat j
   | _ => throw s!"unknown op {op}"
 end Oracle.C10
